@@ -26,6 +26,7 @@ CHECKS = {
     'C03': ('checks.composite', 'C03'),
     'C06': ('checks.composite', 'C06'),
     'C05': ('checks.composite', 'C05'),
+    'C13': ('checks.numexpr', 'C13'),
     'C16': ('checks.c16', 'C16'),
     'C19': ('checks.c19', 'C19'),
 }
